@@ -393,6 +393,31 @@ func runC05RoundTrip(ctx *Ctx, idx int) {
 				continue
 			}
 			ctx.Count("roundtrips_equal:"+name, 1)
+			// a by-value copy of the loaded instance (a table of loaded indexes,
+			// a backup taken before a risky reload) stays what was loaded, whatever
+			// the object it was copied from loads or forgets afterwards
+			if li == 0 && (oi+idx)%2 == 0 {
+				snap := *ld
+				try(func() {
+					other, _ := trie.NewSlimTrie(enc, []string{"p", "pq", "q"}, nil, trie.Opt{Complete: trie.Bool(true)})
+					ob, _ := other.Marshal()
+					switch (oi + idx) / 2 % 3 {
+					case 0:
+						ld.Unmarshal(ob)
+					case 1:
+						proto.Unmarshal(ob, ld)
+					case 2:
+						ld.Unmarshal(ob[:len(ob)/2])
+						ld.Reset()
+					}
+				})
+				dSnap := digestAll(&snap, qs, starts, withStr)
+				if which := dFresh.diff(dSnap, true); which != "" {
+					viol("copy-of-loaded-instance-changed-by-later-load", map[string]interface{}{"component": which, "then": []string{"Unmarshal of another stream", "proto.Unmarshal of another stream", "refused Unmarshal and Reset"}[(oi+idx)/2%3]})
+					continue
+				}
+				ctx.Count("copies_of_loaded_instances_outlive_reloads", 1)
+			}
 		}
 		ctx.Count("queries_compared", int64(len(qs)))
 		if oi == 0 || oi == 15 {
@@ -679,6 +704,21 @@ func runC05History(ctx *Ctx, p int, firstOp int) {
 			}
 			ctx.Violate("C05/history-residue-"+which, ex)
 			continue
+		}
+		// ... and its advertised size is the length of what it marshals, whatever
+		// layout it was loaded from (framing with a length prefix relies on it)
+		if state >= 0 {
+			// (the digest of Marshal carries both numbers: "<len>:<hash>:size=<proto.Size>")
+			var ln, psz int
+			var hx string
+			if k, _ := fmt.Sscanf(strings.Replace(got.Marshal, ":", " ", -1), "%d %s size=%d", &ln, &hx, &psz); k == 3 {
+				if psz != ln {
+					ctx.Violate("C05/size-differs-from-length", map[string]interface{}{"sequence": names, "pool": p, "final_stream": pool.names[state], "proto_size": psz, "len_marshal": ln,
+						"what": "proto.Size of a loaded instance is not the length of what it marshals"})
+					continue
+				}
+				ctx.Count("loaded_size_equals_length:"+strings.SplitN(pool.names[state], "-", 2)[0], 1)
+			}
 		}
 		// a loaded trie is a trie: what it marshals must load again and answer
 		// the same (in particular when it came from a historical layout)
@@ -1674,7 +1714,7 @@ func init() {
 			}
 			return 3000
 		},
-		Gates: shapeGates("roundtrip_with_leaves_beyond_1MiB", "roundtrip_with_leaf_tails_beyond_1MiB", "roundtrip_with_inner_prefixes_beyond_1MiB", "rebuilds_compared", "roundtrips_equal:Unmarshal", "roundtrips_equal:proto.Unmarshal", "histories", "final_state:empty", "final_state:after_failed_load", "final_state:loaded", "remarshalled_and_reloaded:0.5.10", "remarshalled_and_reloaded:3sec",
+		Gates: shapeGates("roundtrip_with_leaves_beyond_1MiB", "roundtrip_with_leaf_tails_beyond_1MiB", "roundtrip_with_inner_prefixes_beyond_1MiB", "rebuilds_compared", "roundtrips_equal:Unmarshal", "roundtrips_equal:proto.Unmarshal", "histories", "final_state:empty", "final_state:after_failed_load", "final_state:loaded", "remarshalled_and_reloaded:0.5.10", "remarshalled_and_reloaded:3sec", "loaded_size_equals_length:0.5.10", "loaded_size_equals_length:3sec", "copies_of_loaded_instances_outlive_reloads",
 			"shape:with_short_nodes", "shape:with_257bit_nodes", "valkind:str16", "valkind:none"),
 		Exhaustive: func(tier string) bool { return false },
 		Finish: func(tier string, m *Merged, cov map[string]interface{}) {
